@@ -41,7 +41,7 @@ def shards(tier):
 
 def floors(tier):
     f = {"cases": 15000, "cases_3plus_keywords_failing": 3000, "cases_2plus_errors_one_keyword": 1000,
-         "rerooted_cases": 3000, "cases_with_references": 2000, "cases_exotic_containers": 3000, "cases_user_keywords_reporting_nothing": 1500, "same_reference_text_under_two_scopes": 300, "cases_names_shared_between_siblings": 1500}
+         "rerooted_cases": 3000, "cases_with_references": 2000, "cases_exotic_containers": 3000, "cases_user_keywords_reporting_nothing": 1500, "same_reference_text_under_two_scopes": 300, "cases_names_shared_between_siblings": 1500, "verdict_only_keyword_then_relative_sibling": 250, "same_class_elements_differing_by_value": 700}
     for k in MULTI:
         f["multi:" + k] = 100
         f["decomposed:" + k] = 500
@@ -360,6 +360,56 @@ def two_scope_case(rng, d):
     return S, store, inst
 
 
+def deterministic_sibling_families(ctx):
+    """Two small families that do not depend on what the generators happen to draw:
+    (a) a keyword that only asks for a verdict (not, contains, if, oneOf, disallow, a draft-3 type union) over a reference into
+        ANOTHER document, followed by a sibling whose reference is relative to THIS document - what the first left behind
+        (an abandoned iteration) is nothing the second can see;
+    (b) containers whose elements are of one Python class but differ in value (3.0 and 3.5 under `integer`): the errors of
+        `items` / `additionalProperties` / `properties` are the union over the elements, each looked at on its own."""
+    from vf.gen import refs as R
+    n = 0
+    for d in impl.DRAFTS:
+        idk = impl.IDKW[d]
+        far = R.STORE_DIR + "far/doc.json"
+        store = {far: {"definitions": {"t": {"type": "integer"}, "u": {"items": {"type": "integer"}}, "local": {"type": "null"}}},
+                 R.STORE_DIR + "far/local.json": {"type": "null"}}
+        R1, R2 = {"$ref": far + "#/definitions/t"}, {"$ref": far + "#/definitions/u"}
+        leakers = [("disallow", [R1]), ("type", [R1, "null"]), ("extends", [{"disallow": [R2]}])] if d == 3 else \
+                  [("not", R1), ("oneOf", [R1, {"type": "object"}]), ("anyOf", [{"not": R2}, R1]), ("allOf", [{"not": R1}])]
+        if d >= 6:
+            leakers += [("contains", R1), ("propertyNames", {"not": R1})]
+        if d >= 7:
+            leakers += [("if", R1)]
+        for lk, lv in leakers:
+            for victim_first in (False, True):
+                victim = {"properties": {"b": {"$ref": "#/definitions/local"}, "c": {"items": {"$ref": "local.json"}}}}
+                members = [(idk, "http://root.example/dir/root.json"), (lk, lv)] + list(victim.items())
+                if victim_first:
+                    members = [members[0]] + members[2:] + [members[1]]
+                S = dict(members)
+                S["definitions"] = {"local": {"type": "string"}}
+                st = dict(store)
+                st["http://root.example/dir/local.json"] = {"type": "string"}
+                for inst in ({"b": 5, "c": [5, "s"]}, {"b": "s", "c": ["s"]}, {"b": None, "c": [None]}, [{"b": 5}], 7, "s", [1, "s"], {"b": [1]}):
+                    n += 1
+                    if ctx.mine(n):
+                        ctx.count("verdict_only_keyword_then_relative_sibling")
+                        compare(ctx, d, S, inst, store=st, handler_docs={})
+        intk = {"type": "integer"}
+        shapes = [{"items": intk, "minItems": 1}, {"additionalProperties": intk}, {"properties": {"a": intk, "b": intk, "c": intk}},
+                  {"patternProperties": {"^": intk}}, {"items": [intk, intk, intk], "additionalItems": intk}, {"items": {"type": ["integer", "null"]}},
+                  {"items": {"type": "number"}}, {"items": {"type": "boolean"}}, {"items": {"enum": [1, "x"]}}, {"items": {"minLength": 1}}]
+        seqs = [[3.0, 3.5, 2.0, 2.5], [3.5, 3.0], [1, True, 0, False], [True, 1], ["", "x", ""], [1.0, 1, 1.5, "1"], [2.5, 2.0, None]]
+        for S in shapes:
+            for seq in seqs:
+                for inst in (list(seq), dict(zip("abcdef", seq)), [list(seq)], {"a": seq[0], "zz": seq[-1], "b": seq[1]}):
+                    n += 1
+                    if ctx.mine(n):
+                        ctx.count("same_class_elements_differing_by_value")
+                        compare(ctx, d, S, inst)
+
+
 def multi_violation_schema(rng, d):
     g = SchemaGen(rng, d, maxdepth=rng.choice([1, 2, 2, 3]), maxkw=8)
     s = g.schema()
@@ -420,6 +470,7 @@ def share_names_and_annotate(rng, d, S):
 
 def run(ctx):
     impl.quiet()
+    deterministic_sibling_families(ctx)
     rng = ctx.rng
     for i in range(ctx.scale(2200, 30000)):
         d = impl.DRAFTS[i % 4]
